@@ -473,7 +473,10 @@ class _Client:
             sched.faults[kk] = "raise" if fault == "rng_raise" else "interrupt"
             try:
                 obj.generate(rng=rng)
-                self.viol("fault_swallowed", f"{fault}@{kk} inside generate was swallowed")
+                if sched.fired:
+                    self.viol("fault_swallowed", f"{fault}@{kk} inside generate was swallowed")
+                else:
+                    self.count("fault_not_reached")
             except (InjectedRngError, InjectedInterrupt):
                 self.count("fault:" + fault)
             except SimAbort:
